@@ -59,6 +59,19 @@ func idStringBytes(enc byte, n int, seed byte) []byte {
 		for i := range b {
 			b[i] = 'A' + (seed+byte(i))%26
 		}
+		if seed%2 == 0 {
+			// Latin-1 text whose high bytes happen to form UTF-8 sequences
+			// ("Â°", "Ã©", "â„¦" read byte by byte), and a lone high byte
+			hi := []byte{0xC2, 0xB0, 0xC3, 0xA9, 0xE2, 0x84, 0xA6, 0xB5}
+			for i := range b {
+				if i%3 != 2 {
+					b[i] = hi[(int(seed)+i)%len(hi)]
+				}
+			}
+			if n >= 2 {
+				b[0], b[1] = 0xC3, 0xA9
+			}
+		}
 		return b
 	}
 }
